@@ -348,7 +348,7 @@ func EncBody(cfg Cfg, t *T, opt string, v V) *Node {
 
 // Encoded reports whether the struct builder encodes this field at all.
 func (f F) Encoded() bool {
-	if f.Skip || f.NoTag {
+	if f.Skip || f.NoTag || f.Raw == "-" {
 		return false
 	}
 	return Exported(f.Name)
